@@ -122,7 +122,9 @@ fn call_program(p: &mut Prng, tag: u64) -> FlowCase {
 
 /// Straight-line record program: build a record, read one field back.
 fn record_program(p: &mut Prng, tag: u64) -> FlowCase {
-    let tys = [STy::U8, STy::U16, STy::U32, STy::U64, STy::I8, STy::I16, STy::I32, STy::I64];
+    let tys = [
+        STy::U8, STy::U16, STy::U32, STy::U64, STy::I8, STy::I16, STy::I32, STy::I64, STy::Bool, STy::F32, STy::F64,
+    ];
     // a deterministic sweep of small shapes first (slot sizes 1..24), random afterwards
     let shapes: [&[STy]; 16] = [
         &[STy::U8],
@@ -155,7 +157,13 @@ fn record_program(p: &mut Prng, tag: u64) -> FlowCase {
         if i == sel {
             lits.push(format!("{}: x", names[i]));
         } else {
-            lits.push(format!("{}: {}", names[i], f.literal(1 + i as u64 * 3)));
+            let bits = match f {
+                STy::F32 => (1.5f32 + i as f32).to_bits() as u64,
+                STy::F64 => (1.5f64 + i as f64).to_bits(),
+                STy::Bool => (i % 2) as u64,
+                _ => 1 + i as u64 * 3,
+            };
+            lits.push(format!("{}: {}", names[i], f.literal(bits)));
         }
     }
     // read another field as well when there is one of the same type, so that more than one
@@ -172,7 +180,7 @@ fn record_program(p: &mut Prng, tag: u64) -> FlowCase {
 pub const MATCH_SHAPES: u64 = 7 * 2 * 2; // n in 3..=9 × payload × wildcard
 pub const MATCH_REPEATS: u64 = 4;
 pub const CALLS: u64 = 12;
-pub const RECORDS: u64 = 32;
+pub const RECORDS: u64 = 48;
 
 pub fn total(thorough: bool) -> u64 {
     let k = if thorough { 8 } else { 1 };
